@@ -3,6 +3,7 @@ import LiquidModel.Drv.Render
 import LiquidModel.Drv.FilterOp
 import LiquidModel.Drv.C05
 import LiquidModel.Drv.C06
+import LiquidModel.Drv.C07
 import LiquidModel.Drv.C18
 namespace Liquid.Drv
 
@@ -12,6 +13,7 @@ def dispatch (op : String) : Option (List String → String) :=
   | "render" => some (renderOp baseFilters)
   | "c05" => some c05Op
   | "c06" => some c06Op
+  | "lit" => some litOp
   | "stack" => some stackOp
   | _ => none
 
